@@ -14,7 +14,7 @@ Fixpoint filter_sel (path : list string) (a : af) (s : sel) {struct s} : list se
       if ok then
         if af_all sub then ([s], [])
         else match oss with
-             | None => ([SField al n args ds t (Some [])], [])          (* auth.go:278: a leaf gets an EMPTY, non-nil selection set *)
+             | None => ([s], [])                                          (* auth.go:276-281 after fix b10b363: a leaf keeps its nil selection set *)
              | Some ss => let '(k, e) := go (path ++ [n]) sub ss in ([SField al n args ds t (Some k)], e)
              end
       else ([], [sconcat "." (path ++ [n])])
